@@ -199,6 +199,8 @@ def metadata_menu(kind, oids, sids):
     if kind == 'both':
         return ([{'taxonomy': ['k__' + str(i), 's__' + o], 'n': i} for i, o in enumerate(oids)],
                 [{'env': 'e' + s, 'depth': float(i)} for i, s in enumerate(sids)])
+    if kind == 'falsy':     # real metadata whose every value is falsy (0, False, '', 0.0): still one mapping per id
+        return ([{'n': 0, 'flag': False, 'note': ''} for o in oids], [{'depth': 0.0, 'ok': False} for s in sids])
     if kind == 'obs':
         return [{'taxonomy': ['k__' + str(i), 's__' + o]} for i, o in enumerate(oids)], None
     if kind == 'samp':
